@@ -352,6 +352,29 @@ func init() {
 	})
 	regStd("Format", stdlib.FormatFunc, fmtArgs)
 	regStd("FormatList", stdlib.FormatListFunc, func(r *rng.R) []cty.Value {
+		if r.Chance(55) { // well-formed: as many verbs as arguments, lists of one length (or scalars)
+			n := 1 + r.Intn(3)
+			ln := 1 + r.Intn(3)
+			var sb strings.Builder
+			args := []cty.Value{cty.NilVal}
+			for k := 0; k < n; k++ {
+				sb.WriteString([]string{"%s", "%v", "%s-", "<%v>"}[r.Intn(4)])
+				if r.Chance(70) {
+					vs := make([]cty.Value, ln)
+					for q := range vs {
+						vs[q] = []cty.Value{str(r), intv(r, 0, 99), cty.BoolVal(r.Bool())}[r.Intn(3)]
+						if vs[q].Type() != vs[0].Type() {
+							vs[q] = vs[0]
+						}
+					}
+					args = append(args, cty.ListVal(vs))
+				} else {
+					args = append(args, str(r))
+				}
+			}
+			args[0] = cty.StringVal(sb.String())
+			return args
+		}
 		a := fmtArgs(r)
 		for i := 1; i < len(a); i++ {
 			if r.Chance(50) {
